@@ -31,7 +31,6 @@ func ndjson(events []event) string {
 }
 
 var reHW = regexp.MustCompile(`"HIGHWATER", (\d+)`)
-var reStrict = regexp.MustCompile(`(?s)"STRICT",\s*\{([^}]*)\}`)
 
 type verdict struct {
 	ok       bool // every session of the batch was accepted
@@ -39,7 +38,6 @@ type verdict struct {
 	pos      int  // 1-based position in that session of the event that could not be matched
 	badKey   int  // the build key whose packets could not be matched (0: requests without a key)
 	violated string
-	strict   map[int]bool // sessions accepted without a callback request that outlived its build
 	tail     string
 	states   int64
 }
@@ -62,8 +60,8 @@ func tailLines(s string, n int) string {
 // drops the ordering constraints BETWEEN keys (sound: nothing that the whole
 // session allows is rejected) and turns a product of state spaces into a sum.
 type part struct {
-	sess   int     // index of the session in the batch
-	key    int     // 0 = the requests without a key
+	sess   int // index of the session in the batch
+	key    int // 0 = the requests without a key
 	events []event
 	pos    []int // position (1-based) of each event in the session's trace
 }
@@ -182,19 +180,11 @@ func runTLC(r *core.Run, ss []*session, cfg string) (*verdict, error) {
 	if err != nil {
 		return nil, err
 	}
-	v := &verdict{strict: map[int]bool{}, violated: res.Violated, tail: tailLines(res.Output, 25), states: res.Distinct}
+	v := &verdict{violated: res.Violated, tail: tailLines(res.Output, 25), states: res.Distinct}
 	hw := 0
 	for _, m := range reHW.FindAllStringSubmatch(res.Output, -1) {
 		if x, _ := strconv.Atoi(m[1]); x > hw {
 			hw = x
-		}
-	}
-	strictEnds := map[int]bool{}
-	if m := reStrict.FindStringSubmatch(res.Output); m != nil {
-		for _, f := range strings.Split(m[1], ",") {
-			if x, err := strconv.Atoi(strings.TrimSpace(f)); err == nil {
-				strictEnds[x] = true
-			}
 		}
 	}
 	if hw == 0 {
@@ -215,15 +205,6 @@ func runTLC(r *core.Run, ss []*session, cfg string) (*verdict, error) {
 				badPart = i
 				break
 			}
-		}
-	}
-	// a session is strict if all of its (accepted) parts are
-	for i := range ss {
-		v.strict[i] = true
-	}
-	for i, p := range parts {
-		if i < badPart && !strictEnds[ends[i]] {
-			v.strict[p.sess] = false
 		}
 	}
 	if accepted {
@@ -247,11 +228,11 @@ func runTLC(r *core.Run, ss []*session, cfg string) (*verdict, error) {
 
 type stats struct {
 	sessions, events, requests, callbacks, nontrivial int
-	closed, exited, noExit, cancelled, held, strag, heldMiss int
-	crashes, hangs int
-	profiles map[string]int
-	kinds    map[string]int
-	tlcStates int64
+	closed, exited, noExit, cancelled, held, heldMiss int
+	crashes, hangs                                    int
+	profiles                                          map[string]int
+	kinds                                             map[string]int
+	tlcStates                                         int64
 }
 
 // validate trace-validates the sessions in batches; a rejected session is a
@@ -267,15 +248,6 @@ func validate(r *core.Run, o sessionOpts, ss []*session, st *stats) {
 		n := len(ss)
 		if !v.ok {
 			n = v.bad
-		}
-		for i := 0; i < n; i++ {
-			if !v.strict[i] {
-				st.strag++
-				s := ss[i]
-				r.Violation(map[string]interface{}{"kind": "callback-outlives-build"},
-					"a plugin callback request (on-resolve/on-load) of a cancelled build was still unanswered, or was sent, after the scan of that build had ended (the session is only accepted by ServiceTrace with Stragglers)",
-					map[string]interface{}{"seed": s.Seed, "profile": s.Profile, "args": s.Args, "packets": s.Log})
-			}
 		}
 		r.AddTraces(int64(n))
 		if v.ok {
@@ -380,51 +352,63 @@ func Run(r *core.Run) {
 	st := &stats{profiles: map[string]int{}, kinds: map[string]int{}}
 
 	// (1) the design: TLC on Service.tla
-	cfgs := []string{"Service.race.cfg", "Service.ctx.cfg", "Service.plug.cfg", "Service.two.cfg", "Service.live.cfg"}
+	cfgs := []string{"Service.race.cfg", "Service.rd.cfg", "Service.plug.cfg", "Service.misc.cfg", "Service.live.cfg"}
 	if r.Thorough() {
-		cfgs = append(cfgs, "Service.ctx5.cfg", "Service.plug4.cfg")
+		cfgs = append(cfgs, "Service.rc.cfg", "Service.ctx4.cfg", "Service.two.cfg", "Service.plug4.cfg")
 	}
 	var tmu sync.Mutex
 	tlcInfo := map[string]interface{}{}
 	if os.Getenv("VERIF_SVC_SKIP_DESIGN") != "" { // developer switch
 		cfgs = nil
 	}
-	core.Parallel(len(cfgs), 2, func(i int) {
-		c := cfgs[i]
-		res := tlcrun.MustHold(r, tlcrun.Options{Module: "ServiceMC", Config: c, Workers: 3, TimeoutSec: 1500})
-		if res != nil {
+	designDone := make(chan struct{})
+	go func() {
+		defer close(designDone)
+		core.Parallel(len(cfgs), 2, func(i int) {
+			c := cfgs[i]
+			res := tlcrun.MustHold(r, tlcrun.Options{Module: "ServiceMC", Config: c, Workers: 2, TimeoutSec: 1500})
+			if res != nil {
+				tmu.Lock()
+				tlcInfo[strings.TrimSuffix(strings.TrimPrefix(c, "Service."), ".cfg")] = map[string]interface{}{"generated": res.Generated, "distinct": res.Distinct, "depth": res.Depth, "wall_s": res.Wall.Seconds()}
+				tmu.Unlock()
+			}
+		})
+		// configurations in which TLC must find the counterexample behind a known
+		// finding (the model describes the code as it is); each counterexample is
+		// then looked for in the real process below
+		expected := map[string]string{"Service.crash.cfg": "NoCrash", "Service.noexit.cfg": "temporal"}
+		var names []string
+		for c := range expected {
+			names = append(names, c)
+		}
+		sort.Strings(names)
+		if os.Getenv("VERIF_SVC_SKIP_DESIGN") != "" {
+			names = nil
+		}
+		core.Parallel(len(names), 3, func(i int) {
+			c := names[i]
+			res, err := tlcrun.Run(r, tlcrun.Options{Module: "ServiceMC", Config: c, Workers: 2, TimeoutSec: 900, KeepOutput: true})
+			if res != nil && res.Violated == "" && strings.Contains(res.Output, "Error: Temporal propert") {
+				res.Violated, err = "temporal", nil
+			}
+			if err != nil {
+				r.Infra("%v", err)
+				return
+			}
+			if res.Violated != expected[c] {
+				r.Infra("model %s: expected the counterexample for %s, TLC reports %q (the model no longer shows the known defect)", c, expected[c], res.Violated)
+			}
 			tmu.Lock()
-			tlcInfo[strings.TrimSuffix(strings.TrimPrefix(c, "Service."), ".cfg")] = map[string]interface{}{"generated": res.Generated, "distinct": res.Distinct, "depth": res.Depth, "wall_s": res.Wall.Seconds()}
+			tlcInfo[strings.TrimSuffix(strings.TrimPrefix(c, "Service."), ".cfg")] = map[string]interface{}{"expected_counterexample": expected[c], "found": res.Violated, "distinct": res.Distinct}
 			tmu.Unlock()
-		}
-	})
-	// configurations in which TLC must find the counterexample behind a known
-	// finding (the model describes the code as it is); each counterexample is
-	// then looked for in the real process below
-	expected := map[string]string{"Service.crash.cfg": "NoCrash", "Service.strag.cfg": "CallbacksWithinBuild", "Service.noexit.cfg": "temporal"}
-	var names []string
-	for c := range expected {
-		names = append(names, c)
-	}
-	sort.Strings(names)
-	if os.Getenv("VERIF_SVC_SKIP_DESIGN") != "" {
-		names = nil
-	}
-	core.Parallel(len(names), 3, func(i int) {
-		c := names[i]
-		res, err := tlcrun.Run(r, tlcrun.Options{Module: "ServiceMC", Config: c, Workers: 2, TimeoutSec: 900})
-		if err != nil {
-			r.Infra("%v", err)
-			return
-		}
-		if res.Violated != expected[c] {
-			r.Infra("model %s: expected the counterexample for %s, TLC reports %q (the model no longer shows the known defect)", c, expected[c], res.Violated)
-		}
+		})
+	}()
+	defer func() {
+		<-designDone
 		tmu.Lock()
-		tlcInfo[strings.TrimSuffix(strings.TrimPrefix(c, "Service."), ".cfg")] = map[string]interface{}{"expected_counterexample": expected[c], "found": res.Violated, "distinct": res.Distinct}
+		r.Set("service_tlc", tlcInfo)
 		tmu.Unlock()
-	})
-	r.Set("service_tlc", tlcInfo)
+	}()
 
 	// (2) the code: sessions against the real child process
 	verBytes, err := os.ReadFile(filepath.Join(r.Repo, "version.txt"))
@@ -542,14 +526,13 @@ func Run(r *core.Run) {
 	r.Set("service_sessions_held", st.held)
 	r.Set("service_held_assumption_misses", st.heldMiss)
 	r.Set("service_rebuilds_cancelled", st.cancelled)
-	r.Set("service_sessions_with_stragglers", st.strag)
 	r.Set("service_crashes", st.crashes)
 	r.Set("service_profiles", st.profiles)
 	r.Set("service_response_kinds", st.kinds)
 	r.Set("service_trace_states", st.tlcStates)
 	r.Set("service_rule", "a session = one real `esbuild --service` process driven by 2-4 concurrent logical clients with seeded random request sequences (build, context build + rebuild/cancel/dispose, transform, resolve, invalid command), plugin callbacks answered late / with errors / after a nested resolve, stdin closed at a random point in the 'close' profile; non-trivial = at least two requests were unanswered at the same time; distinct by (seed, trace length)")
-	r.Logf("service: %d sessions, %d events, %d requests, %d callbacks, %d overlapping, %d closed early, %d exit 0, %d cancelled rebuilds, %d with stragglers, %d no-exit, %d crashes, %d hangs",
-		st.sessions, st.events, st.requests, st.callbacks, st.nontrivial, st.closed, st.exited, st.cancelled, st.strag, st.noExit, st.crashes, st.hangs)
+	r.Logf("service: %d sessions, %d events, %d requests, %d callbacks, %d overlapping, %d closed early, %d exit 0, %d cancelled rebuilds, %d no-exit, %d crashes, %d hangs",
+		st.sessions, st.events, st.requests, st.callbacks, st.nontrivial, st.closed, st.exited, st.cancelled, st.noExit, st.crashes, st.hangs)
 }
 
 // developer entry point: `bin/check C20S` runs the service part alone
